@@ -7,9 +7,29 @@ from harness.adapters import datastruct as A
 PROP = 'C17'
 
 
+def _lookup(s):
+    """find_component_id(label of n) for every present n, by the documented precedence (mirrors DataStruct!Lookup;
+    the spec operator is model-checked, this is its evaluation on the exported state)."""
+    comps = [(c['n'], c['k']) for c in s['comps']]
+    lab = dict(s['labels']) if not isinstance(s['labels'], tuple) else None
+    if lab is None:
+        return {}
+    out = {}
+    for n, k in comps:
+        l = lab[n]
+        res = 'none'
+        for cls in (('main',), ('derived',), ('pixel', 'world')):
+            m = [x for x, kk in comps if kk in cls and lab[x] == l]
+            if m:
+                res = m[0] if len(m) == 1 else 'none'
+                break
+        out[str(n)] = str(res)
+    return out
+
+
 def _st(s):
     return {'comps': [{'n': c['n'], 'k': c['k']} for c in s['comps']], 'coords': s['coords'], 'shape': s['shape'],
-            'label': s['label'], 'hub': s['hub']}
+            'label': s['label'], 'hub': s['hub'], 'lookup': _lookup(s)}
 
 
 def _ann(a):
@@ -21,7 +41,7 @@ def items_of(state_lists):
     return [{'steps': [{'act': to_json(s['act']), 'st': _st(s), 'ann': _ann(s['ann'])} for s in sl[1:]]} for sl in state_lists]
 
 
-OPS = ['Attach', 'AddMain', 'AddMainBadShape', 'ReAddValues', 'AddDerived', 'Remove', 'RemoveAbsent', 'Reorder',
+OPS = ['Attach', 'AddDup', 'AddMain', 'AddMainBadShape', 'ReAddValues', 'AddDerived', 'Remove', 'RemoveAbsent', 'Reorder',
        'UpdateId', 'UpdateIdAbsent', 'Rename', 'UpdateValues', 'UpdateValuesBadShape', 'UpdateFrom', 'SetCoords', 'SetLabel']
 
 
